@@ -122,6 +122,8 @@ def gen_progs(rng, n, pid):
             opts["lit_p"] = 0.35
         if pid in ("C13", "C01", "C19"):
             opts["unexported_p"] = 0.3
+        if pid in ("C01", "C19", "C10"):
+            opts["unexp_prov_p"] = 0.2
         if pid == "C19":
             opts["full_sig"] = rng.random() < 0.6
         if pid in ("C14", "C01"):
@@ -152,7 +154,7 @@ def prog_oracle(pid, p, r, o):
     ds = synth.parse_errors(tree, o["errors"], parse_t=gencase.ptid_for(r), strip=gencase.strip_for(r)) if not accepted else []
     set_errs = [d for d in ds if d[0] in ("DMulti", "DBindMissing", "DCycle", "DItem", "DUnparsed")]
     solve_errs = [d for d in ds if d[0] == "DNoProvider" or d[0].startswith("DUnused")]
-    inj_errs = [d for d in ds if d[0] in ("DNeedsCleanup", "DNeedsErr", "DValueAccess")]
+    inj_errs = [d for d in ds if d[0] in ("DNeedsCleanup", "DNeedsErr", "DValueAccess", "DProvAccess")]
     set_ok = accepted or not set_errs
     if pid in ("C05", "C06", "C07", "C08", "C09", "C10", "C11", "C12"):
         msgs += props_oracle_core(pid, (tree, given, out), accepted, set_ok, set_errs, solve_errs, None,
@@ -162,6 +164,11 @@ def prog_oracle(pid, p, r, o):
         bad = [v["id"] for x in spec.all_sets(tree) for v in x["values"] if v.get("unexported") and v["out"] in seen_t]
         if bad:
             msgs.append("value expressions %s mention an unexported field of another package, yet generation succeeded" % bad)
+    if pid in ("C01", "C19", "C10") and accepted:
+        seen_t, direct_t, _ = spec.needed(tree, given, out)
+        badp = sorted({q["id"] for x in spec.all_sets(tree) for q in x["providers"] if q.get("unexp") and any(t in seen_t and direct_t.get(t, ("", None))[0] == "prov" and direct_t[t][1]["id"] == q["id"] for t in q["outs"])})
+        if badp:
+            msgs.append("providers %s are unexported functions of another package that the injector must call, yet generation succeeded" % badp)
     if accepted:
         if "build_error" in o:
             msgs.append("wire gen succeeded but the package does not compile: " + o["build_error"][:400])
